@@ -260,7 +260,7 @@ func (b *build) runWorker(s *spec, timeout time.Duration, extraEnv ...string) (*
 	}
 	data, err := os.ReadFile(s.Out)
 	if err != nil {
-		return nil, &workerDied{err: fmt.Sprintf("%v", werr), output: tail(buf.String(), 6000)}
+		return nil, &workerDied{err: fmt.Sprintf("%v", werr), output: headTail(buf.String(), 6000, 6000)}
 	}
 	var r result
 	if err := json.Unmarshal(data, &r); err != nil {
@@ -291,6 +291,13 @@ func (w *workerDied) reason() string {
 		}
 	}
 	return "worker process " + w.err
+}
+
+func headTail(s string, h, t int) string {
+	if len(s) <= h+t {
+		return s
+	}
+	return s[:h] + "\n...\n" + s[len(s)-t:]
 }
 
 func tail(s string, n int) string {
@@ -539,7 +546,12 @@ func runCheck(c *checkCfg) int {
 		explore(b, c.budget, c.maxRuns)
 	}
 	if len(a.workersFailed) > 0 {
-		fmt.Fprintf(os.Stderr, "vsim: worker trouble (exit 2, not a violation): %s\n", a.workersFailed[0])
+		// keep the whole story for a post-mortem
+		dir := filepath.Join(verifRoot, "replays", "_worker_trouble")
+		_ = os.MkdirAll(dir, 0o755)
+		path := filepath.Join(dir, fmt.Sprintf("%s-%s-%d.log", c.prop, c.tier, time.Now().Unix()))
+		_ = os.WriteFile(path, []byte(strings.Join(a.workersFailed, "\n\n=====\n\n")), 0o644)
+		fmt.Fprintf(os.Stderr, "vsim: worker trouble (exit 2, not a violation; full output in %s): %s\n", path, tail(a.workersFailed[0], 3000))
 		return 2
 	}
 	if a.runs == 0 && len(a.violations) == 0 {
